@@ -296,8 +296,14 @@ class Result:
                 seen_known.setdefault(key, (desc, replay))
             else:
                 new_viol.setdefault(key, (desc, replay))
+        collect = os.environ.get("VERIF_COLLECT_EXAMPLES")
         for key, (desc, replay) in seen_known.items():
             out_lines.append(f"KNOWN-FINDING: property={self.prop} {known[key].get('what', key)} [{key}]")
+            if collect:
+                # maintenance aid: dump one concrete failing input per listed finding (never at normal run time)
+                os.makedirs(collect, exist_ok=True)
+                json.dump({"property": self.prop, "key": key, "observed": desc, "replay": replay},
+                          open(os.path.join(collect, key.replace("/", "__") + ".json"), "w"), indent=1)
         for key, (desc, replay) in new_viol.items():
             h = hashlib.sha1((key + json.dumps(replay, sort_keys=True)).encode()).hexdigest()[:12]
             path = os.path.join(rdir, h + ".json")
